@@ -149,12 +149,12 @@ def scenarios(ctx):
     grid = []
     versions = (3, 4)
     if q:
-        grid = [(3, 1, 10000, 2, 'short'), (4, 4, 1, 1, 'short'), (3, 1024, 100, 3, 'big'), (4, 1, 100, 3, 'big')]
+        grid = [(3, 1, 10000, 2, 'short'), (4, 4, 1, 1, 'short'), (3, 1024, 100, 3, 'big'), (4, 1, 100, 3, 'huge')]
     else:
         for v in versions:
             for t in (1, 4, 1024):
                 for (b, f) in ((10000, 2), (1, 1), (100, 3)):
-                    for pk in ('short', 'big'):
+                    for pk in ('short', 'big', 'huge'):
                         grid.append((v, t, b, f, pk))
     for (v, t, b, f, pk) in grid:
         init = (('connect', 0, False, 0, v), ('connack', 0, 0, False), ('settimeout', 0, t), ('setbw', 0, b, f),
